@@ -343,6 +343,21 @@ func c16Verifier(r *Run, t *tape.Tape) {
 	if lz && variant == "stripped" {
 		r.Probe("stripped-variant-of-leading-zero-signature")
 	}
+	// the digest entry point of the same verifier is held to the same rule
+	if dv, ok := verifier.(cose.DigestVerifier); ok {
+		digest := refcose.Digest(refcose.HashFor(k.Alg), content)
+		var derr error
+		r.Lib(func() { derr = dv.VerifyDigest(digest, offered) })
+		r.Check()
+		switch {
+		case derr == nil && !want:
+			r.Fail("non-canonical-ecdsa-signature-accepted/"+variant+"/"+name+"/VerifyDigest", "VerifyDigest returned nil for a %d-byte %s form (canonical form has %d bytes)\noffered: %x\n  exact: %x", len(offered), variant, 2*size, offered, good)
+		case derr != nil && want:
+			r.Fail("canonical-ecdsa-signature-rejected/"+name+"/VerifyDigest", "VerifyDigest returned %v for the exact fixed-width form of a valid signature", derr)
+		case derr != nil && !errors.Is(derr, cose.ErrVerification):
+			r.Fail("ecdsa-rejection-not-a-verification-error/"+variant+"/VerifyDigest", "rejected with %v, which is not ErrVerification", derr)
+		}
+	}
 }
 
 var _ = elliptic.P256
